@@ -10,7 +10,7 @@ REPO = os.environ.get("VERIF_REPO", "/repo")
 COQ = os.environ.get("VERIF_COQ") or os.path.join(VERIF, "coq")
 HARNESS = os.path.join(VERIF, "harness")
 SHIMS = os.path.join(VERIF, "shims")
-EVIDENCE = os.path.join(VERIF, "evidence")
+EVIDENCE = os.environ.get("VERIF_EVIDENCE") or os.path.join(VERIF, "evidence")
 REPLAYS = os.path.join(VERIF, "replays")
 CORPUS = os.path.join(VERIF, "corpus")
 PYTHON = "/venv/bin/python"
